@@ -454,8 +454,8 @@ class EngineTyper:
         return all(self.same(t1, t2) for (_, t1), (_, t2) in zip(a.items(), b.items()))
 
     def nary(self, x, children):
-        """counters: the agreement rule of an n-ary node was evaluated; ... over children that are not all one and the same node;
-        ... over children whose Python types are not all the same object-equal type (where a disagreement can show at all)"""
+        """counters: the agreement rule of an n-ary node was evaluated; ... over children that are not all one and the same node
+        (where a disagreement can show at all); ... over three or more children"""
         cls = type(x).__name__
         self.count('nary_children_rule_checked')
         self.count('nary_children_rule_checked:' + cls)
